@@ -61,7 +61,9 @@ Download(r) ==
      ELSE UNCHANGED <<gens, ctl, inq, lastRead, lastWrite, trueServe, trueRecv>>
   /\ IF cache' = "full" THEN Answer({r}, "ok") /\ UNCHANGED waiters
      ELSE waiters' = waiters \cup {r} /\ UNCHANGED result
-  /\ UNCHANGED <<notice, now, stopped>>
+  \* dispatch.New on an already complete torrent calls complete(): a notice of the new generation is spawned
+  /\ notice' = IF ctl = 0 /\ cache' = "full" THEN notice \cup {gens + 1} ELSE notice
+  /\ UNCHANGED <<now, stopped>>
 
 \* (async) a piece arrives and is written; the last one completes the torrent and spawns the notice
 RecvPiece ==
